@@ -109,6 +109,43 @@ def reserved_attr_names():
     return None if ok else env.decode("utf-8")[-400:]
 
 
+def clobbered_type_prefix():
+    """D48 witness. A bare (non-wrapped) part whose global element lives in the SECOND of two schema blocks of one
+    namespace, the FIRST block having elementFormDefault="unqualified", the document calling the namespace ns1, and a
+    value of a derived type from another namespace: -> None when xsi:type names the derived type, else what it resolved to."""
+    X = "http://www.w3.org/2001/XMLSchema"
+    w = ('<?xml version="1.0"?><wsdl:definitions targetNamespace="urn:w" xmlns:wsdl="http://schemas.xmlsoap.org/wsdl/" '
+         'xmlns:w="urn:w" xmlns:soap="http://schemas.xmlsoap.org/wsdl/soap/"><wsdl:types>'
+         '<xsd:schema xmlns:xsd="%s" xmlns:ns1="urn:n0" xmlns:ns2="urn:n1" targetNamespace="urn:n0" '
+         'elementFormDefault="unqualified"><xsd:import namespace="urn:n1"/><xsd:complexType name="Base"><xsd:sequence>'
+         '<xsd:element name="a" type="xsd:string"/></xsd:sequence></xsd:complexType></xsd:schema>'
+         '<xsd:schema xmlns:xsd="%s" xmlns:ns1="urn:n0" xmlns:ns2="urn:n1" targetNamespace="urn:n0" '
+         'elementFormDefault="qualified"><xsd:element name="p" '
+         'type="ns1:Base"/><xsd:element name="q" type="xsd:string"/></xsd:schema>'
+         '<xsd:schema xmlns:xsd="%s" xmlns:ns1="urn:n0" xmlns:ns2="urn:n1" targetNamespace="urn:n1" '
+         'elementFormDefault="qualified"><xsd:import namespace="urn:n0"/><xsd:complexType name="Der"><xsd:complexContent>'
+         '<xsd:extension base="ns1:Base"><xsd:sequence><xsd:element name="b" type="xsd:string"/></xsd:sequence>'
+         '</xsd:extension></xsd:complexContent></xsd:complexType></xsd:schema></wsdl:types>'
+         '<wsdl:message name="fIn"><wsdl:part name="p" xmlns:ns1="urn:n0" element="ns1:p"/><wsdl:part name="q" '
+         'xmlns:ns1="urn:n0" element="ns1:q"/></wsdl:message><wsdl:portType name="PT"><wsdl:operation name="f">'
+         '<wsdl:input message="w:fIn"/></wsdl:operation></wsdl:portType><wsdl:binding name="B" type="w:PT">'
+         '<soap:binding style="document" transport="http://schemas.xmlsoap.org/soap/http"/><wsdl:operation name="f">'
+         '<soap:operation soapAction="f"/><wsdl:input><soap:body use="literal"/></wsdl:input></wsdl:operation>'
+         '</wsdl:binding><wsdl:service name="S"><wsdl:port name="P" binding="w:B"><soap:address '
+         'location="http://x.invalid/"/></wsdl:port></wsdl:service></wsdl:definitions>' % (X, X, X)).encode()
+    c = wsdlkit.client(w, nosend=True)
+    d = c.factory.create("{urn:n1}Der")
+    d.a, d.b = "1", "2"
+    env = wsdlkit.envelope_bytes(c.service.f(d, "s"))
+    try:
+        root = xmlread.parse(env)
+        node = [n for n in xmlread.walk(root) if n["name"] == ("urn:n0", "p")][0]
+        q = xmlread.resolve_qname(node, node["attrs"].get((xmlread.XSI, "type")) or "")
+    except Exception as e:
+        return "%s: %s" % (type(e).__name__, e)
+    return None if tuple(q) == ("urn:n1", "Der") else list(q)
+
+
 def two_port_wsdl():
     parts = []
     for n, members in (("1", '<xsd:element name="id" type="xsd:string"/><xsd:element name="note" type="xsd:string"/>'),
@@ -223,6 +260,11 @@ def defaults_and_untyped(ctx):
     if got != ["true", "false", "2001-02-03T04:05:06", "2001-02-03T04:05:06"]:
         ctx.fail("a value of a simple type derived by restriction is not written in the XSD lexical form", meta, got,
                  ["true", "false", "2001-02-03T04:05:06", "2001-02-03T04:05:06"])
+    # (f) the prefix an xsi:type value uses stays bound when the finished part is qualified (D48)
+    ctx.case(("clobbered-type-prefix",), True)
+    if clobbered_type_prefix() is not None:
+        ctx.fail("xsi:type of a bare part does not name the derived type (its prefix was re-bound when the part was "
+                 "qualified)", {"stream": "clobbered-type-prefix"}, clobbered_type_prefix(), ["urn:n1", "Der"])
     # (e) two ports of one service whose port types define a same-named operation with different inputs: a call
     #     through either port builds that port's message, whichever was used first
     for order in (("one", "two"), ("two", "one"), ("two", "two", "one")):
@@ -315,6 +357,8 @@ def witness(ctx, k):
     kind = (k.get("witness") or {}).get("kind")
     if kind == "reserved-attribute-names":
         return reserved_attr_names() is not None
+    if kind == "clobbered-type-prefix":
+        return clobbered_type_prefix() is not None
     if kind == "none-in-top-level-list":
         schema = ('<xsd:element name="f"><xsd:complexType><xsd:sequence><xsd:element name="items" type="xsd:string" '
                   'minOccurs="0" maxOccurs="unbounded"/></xsd:sequence></xsd:complexType></xsd:element>')
